@@ -80,7 +80,12 @@ def build_api(case, flavour):
         rid = j + 1
         analytic = flavour == "analytic" or (flavour == "mixed" and rid % 2 == 1)
         defs.append(Multi_Range_Defn(ty, s / 2.0, Sub(rid, analytic)))
-    return create_Multi_Range_Potential_Form(*defs)
+    f = create_Multi_Range_Potential_Form(*defs)
+    # range definitions are values: other potentials are built from the same definition objects afterwards (every second one with
+    # a definition of their own in between, and all of them in reverse); the first potential is what it was
+    create_Multi_Range_Potential_Form(*(defs[::2] + [Multi_Range_Defn(">", 1.25, Sub(9, True))]))
+    create_Multi_Range_Potential_Form(*defs[::-1])
+    return f
 
 
 def render_ini(case, custom=False):
